@@ -276,6 +276,25 @@ CHECKS = {
              "statements by line.",
         technique="TLA+ rule model (TLC enumeration) + spec-to-implementation replay",
         ref="DESIGN.md section 4 C14"),
+    "C16": dict(
+        engine="BV/CapySem",
+        category="model_checking",
+        text="CapySem.tla (the definitional interpreter of C01) binds a call's comptime arguments - "
+             "types and constants - like ordinary immutable parameters: the beta-rule `a generic call "
+             "behaves like a call of the copy in which the parameters are replaced by the "
+             "arguments`, with instances determined by the argument values. Generated programs "
+             "have functions with a type parameter T and optionally a constant N, bodies written "
+             "for any integer T (arithmetic in T, literals T.(k), casts through concrete types, "
+             "loops bounded by N, early return, nested generic calls passing T on), 3-5 "
+             "instantiations per program (u8 .. i64, signed and unsigned; equal argument sets "
+             "repeated, different ones interleaved) and a generic identity instantiated with an "
+             "array and a struct (copy semantics kept). Each is compiled, linked, executed; TLC "
+             "validates the output against the interpreter (TraceSem.tla).",
+        note="quick: 120 programs, thorough: 2 500. Varargs and generics across files are not "
+             "generated (files: C20). Trusted: TLC, the generator in tools/props/c16.py, the "
+             "renderer, gcc as linker.",
+        technique="TLA+ definitional interpreter (beta-rule for comptime parameters) + trace validation",
+        ref="DESIGN.md section 4 C16"),
     "C17": dict(
         engine="Ty/Layout",
         category="model_checking",
@@ -293,6 +312,23 @@ CHECKS = {
              "(cfg capy_verif). Trusted: TLC, the harness' term -> Ty construction, gcc.",
         technique="TLA+ trace validation of the exhaustively recorded layout table (TLC)",
         ref="DESIGN.md section 4 C17"),
+    "C20": dict(
+        engine="Repro/OrderIndep",
+        category="model_checking",
+        text="OrderIndep.tla: an abstract program is a set of mutually referring global "
+             "definitions; an arrangement chooses their textual order and a partition into files. "
+             "A recorded history of arrangements is a behaviour iff every abstract program keeps "
+             "the outcome (accepted, stdout, exit status; multiset of diagnostic kinds) of its "
+             "first arrangement. Seeded abstract programs (constant chains through comptime "
+             "blocks, structs whose array sizes are constants, nested structs, an enum, a distinct "
+             "type, mutually recursive functions, a generic function using a constant, main "
+             "printing values; every fourth with one type error) are arranged 9 ways - 5 orders "
+             "in one file, two / three files, everything but main in a library, with imports and "
+             "import cycles - compiled, linked, run, and the history validated by TLC.",
+        note="quick: 32 programs x 9 arrangements, thorough: 400 x 9. The scheduler itself is "
+             "C26's. Trusted: TLC, the arrangement renderer in tools/props/c20.py, gcc as linker.",
+        technique="TLA+ history machine + trace validation of recorded arrangements",
+        ref="DESIGN.md section 4 C20"),
     "C21": dict(
         engine="Repro",
         category="model_checking",
